@@ -4,6 +4,7 @@ import (
 	"bytes"
 	"encoding/binary"
 	"errors"
+	"fmt"
 	"io"
 
 	"github.com/arnodel/golua/code"
@@ -23,6 +24,8 @@ func MarshalConst(w io.Writer, c Value, budget uint64) (used uint64, err error) 
 	defer func() {
 		if r := recover(); r == budgetConsumed {
 			used = budget
+		} else if r != nil {
+			err = fmt.Errorf("cannot marshal value: %v", r)
 		}
 	}()
 	if _, err := w.Write(marshalPrefix); err != nil {
@@ -38,6 +41,10 @@ func UnmarshalConst(r io.Reader, budget uint64) (v Value, used uint64, err error
 	defer func() {
 		if r := recover(); r == budgetConsumed {
 			used = budget
+		} else if r != nil {
+			// Only the budget is signalled with a panic: anything else must
+			// not be mistaken for it and silently dropped.
+			v, err = NilValue, fmt.Errorf("malformed marshalled value: %v", r)
 		}
 	}()
 	pfx := make([]byte, len(marshalPrefix))
